@@ -257,6 +257,20 @@ unsafe impl GlobalAlloc for Ledger {
             };
         }
         match rec {
+            Some(s) if EPOCH.load(Relaxed) != 0 => {
+                // inside a scope the allocator's freedom is resolved adversarially: a `realloc` (grow
+                // *or shrink*) always moves the block, and the old one is poisoned and quarantined, so
+                // a pointer remembered across `shrink_to_fit`/`reserve` is certainly stale (glibc
+                // shrinks in place, which would hide that)
+                let old = Layout::from_size_align_unchecked(s.size, s.align as usize);
+                let nl = Layout::from_size_align_unchecked(new_size, s.align as usize);
+                let np = self.alloc(nl);
+                if !np.is_null() {
+                    std::ptr::copy_nonoverlapping(ptr, np, s.size.min(new_size));
+                    self.dealloc(ptr, old);
+                }
+                np
+            }
             Some(s) => {
                 let old = Layout::from_size_align_unchecked(s.size, s.align as usize);
                 let np = System.realloc(ptr, old, new_size);
